@@ -1041,6 +1041,19 @@ func (s *Session) input(seg *segment) error {
 }
 
 func (s *Session) inputData(seg *segment) error {
+	// A server answers an open session request before the payload that came
+	// with the request becomes readable. Otherwise an application that replies
+	// at once can put a full congestion window of data segments in front of the
+	// open session response, and a UDP client, which acknowledges nothing until
+	// it has seen that response, never lets the window move again.
+	quotaExhausted := false
+	if !s.isClient && seg.metadata.Protocol() == openSessionRequest && s.isState(sessionAttached) {
+		var err error
+		if quotaExhausted, err = s.queueOpenSessionResponse(); err != nil {
+			return err
+		}
+	}
+
 	switch s.transportProtocol {
 	case common.StreamTransport:
 		// Deliver the segment directly to recvQueue.
@@ -1098,48 +1111,51 @@ func (s *Session) inputData(seg *segment) error {
 		return fmt.Errorf("unsupported transport protocol %v", s.transportProtocol)
 	}
 
-	if !s.isClient && seg.metadata.Protocol() == openSessionRequest {
-		if s.isState(sessionAttached) {
-			// Server needs to send open session response.
-			// Check user quota if we can identify the user.
-			s.oLock.Lock()
-			if userName := s.UserName(); userName != "" {
-				quotaOK, err := s.checkQuota(userName)
-				if err != nil {
-					log.Debugf("%v checkQuota() failed: %v", s, err)
-				}
-				if !quotaOK {
-					s.status = statusQuotaExhausted
-					log.Debugf("Closing %v because user %s used all the quota", s, userName)
-					s.oLock.Unlock()
-					s.Close()
-					return nil
-				}
-			}
-			seg4 := &segment{
-				metadata: &sessionStruct{
-					baseStruct: baseStruct{
-						protocol: uint8(openSessionResponse),
-					},
-					sessionID: s.id,
-					seq:       s.nextSend.Load(),
-				},
-				transport: s.transportProtocol,
-			}
-			s.nextSend.Add(1)
-			if log.IsLevelEnabled(log.TraceLevel) {
-				log.Tracef("%v writing open session response", s)
-			}
-			if !s.sendQueue.Insert(seg4) {
-				s.oLock.Unlock()
-				return fmt.Errorf("inputData() failed: insert %v to send queue failed", seg4)
-			} else {
-				s.oLock.Unlock()
-				s.forwardStateTo(sessionEstablished)
-			}
-		}
+	if quotaExhausted {
+		log.Debugf("Closing %v because user %s used all the quota", s, s.UserName())
+		s.Close()
 	}
 	return nil
+}
+
+// queueOpenSessionResponse puts the open session response of a server session
+// into the send queue and marks the session established. If the user has used
+// all the quota, nothing is queued and quotaExhausted is true.
+func (s *Session) queueOpenSessionResponse() (quotaExhausted bool, err error) {
+	s.oLock.Lock()
+	// Check user quota if we can identify the user.
+	if userName := s.UserName(); userName != "" {
+		quotaOK, err := s.checkQuota(userName)
+		if err != nil {
+			log.Debugf("%v checkQuota() failed: %v", s, err)
+		}
+		if !quotaOK {
+			s.status = statusQuotaExhausted
+			s.oLock.Unlock()
+			return true, nil
+		}
+	}
+	seg4 := &segment{
+		metadata: &sessionStruct{
+			baseStruct: baseStruct{
+				protocol: uint8(openSessionResponse),
+			},
+			sessionID: s.id,
+			seq:       s.nextSend.Load(),
+		},
+		transport: s.transportProtocol,
+	}
+	s.nextSend.Add(1)
+	if log.IsLevelEnabled(log.TraceLevel) {
+		log.Tracef("%v writing open session response", s)
+	}
+	if !s.sendQueue.Insert(seg4) {
+		s.oLock.Unlock()
+		return false, fmt.Errorf("inputData() failed: insert %v to send queue failed", seg4)
+	}
+	s.oLock.Unlock()
+	s.forwardStateTo(sessionEstablished)
+	return false, nil
 }
 
 func (s *Session) inputAck(seg *segment) error {
